@@ -68,7 +68,7 @@ def main():
         sh(["rm", "-rf", wt])
     print(json.dumps(out))
     try:
-        json.dump(out, open(os.path.join(sdir, "check_result.json"), "w"), indent=1)
+        json.dump(out, open(os.path.join("/var/tmp/seed_results", os.path.basename(sdir) + ".json"), "w"), indent=1)
     except Exception:
         pass
     return 0
